@@ -104,7 +104,7 @@ def check(ctx, src):
         ctx.require(f is not None, f"{fn} not found")
         R = rflow.Roles(comp.rm, f, world=W)
         pname = R.slots[slot] if slot < len(R.slots) else None
-        ctx.require(pname is not None, f"{fn}: slot {slot} vanished")
+        ctx.need(pname is not None, f"{fn}: slot {slot} vanished")
         hit = False
         for c in pyq.calls(f):
             if isinstance(c.func, ast.Attribute) and c.func.attr == "_compile_branch" and c.args:
@@ -120,7 +120,7 @@ def check(ctx, src):
     cb = comp.cp.func("HyASTCompiler._compile_branch")
     ctx.require(cb is not None, "_compile_branch not found")
     loop = next((n for n in pyq.walk_no_nested(cb) if isinstance(n, ast.For)), None)
-    ctx.require(loop is not None, "_compile_branch: loop not found")
+    ctx.need(loop is not None, "_compile_branch: loop not found")
     texts = [norm(s) for s in loop.body]
     want = ["if last is not None: result += last.expr_as_stmt()", "last = self.compile(node)", "result += last"]
     ctx.check(texts == want and norm(loop.iter) == "exprs", "R-SEQ", f"{compq.CP}|_compile_branch|loop",
@@ -151,7 +151,7 @@ def check(ctx, src):
     ca = comp.rm.func("compile_assign")
     ctx.require(ca is not None, "compile_assign not found")
     ren = next((c for c in pyq.calls(ca) if isinstance(c.func, ast.Attribute) and c.func.attr == "rename"), None)
-    ctx.require(ren is not None, "compile_assign: rename site not found")
+    ctx.need(ren is not None, "compile_assign: rename site not found")
     iff = ren
     while iff is not None and not isinstance(iff, ast.If):
         iff = iff._parent
